@@ -177,7 +177,8 @@ def run(tier: str) -> int:
     # regions a lexer hands out as comment tokens of an unusual kind: code disabled by the preprocessor
     IF0 = ("int compute(int a) {\n  int r = a;\n#if 0\n  r = old_way(a);\n  if (r) {\n    r = r + 1;\n  }\n  log(r);\n#endif\n  return r;\n}\n\n"
            "int other(int b) {\n#if 0\n  legacy(b);\n  more(b);\n#else\n  b = b + 1;\n#endif\n  return b;\n}\n")
-    special = [("C", "special/if0.c", IF0), ("C++", "special/if0.cpp", IF0)]
+    WIDE = ("const table = [" + ", ".join(str(i) for i in range(260)) + "]; function lookup(k) {\n  if (k) {\n    return table[k];\n  }\n  return 0;\n}\nfunction other(a) {\n  return a;\n}\n")
+    special = [("C", "special/if0.c", IF0), ("C++", "special/if0.cpp", IF0), ("JavaScript", "special/wide.js", WIDE), ("TypeScript", "special/wide.ts", WIDE)]
     for lang, origin, text in special:
         for _rep in range(3):  # three independent choices of points
             sel = rng.sample(scripts, min(b["scripts_per_corpus"], len(scripts)))
